@@ -8,7 +8,7 @@ git -C /repo worktree add --detach $W HEAD -q || exit 2
 for d in seeded/*/; do
   s=$(basename $d); id=${s%-*}
   if [ $# -gt 0 ] && ! echo " $* " | grep -q " $id "; then continue; fi
-  if [ -n "$SEEDS" ] && ! echo "$s" | grep -Eq "$SEEDS"; then continue; fi
+  if [ -n "$SEEDS" ] && ! echo "$s" | grep -Eq -- "$SEEDS"; then continue; fi
   git -C $W checkout -q -- . ; git -C $W apply $PWD/$d/patch.diff || { echo "$s: patch does not apply"; continue; }
   out=$(VERIF_REPO=$W ./check $id --no-evidence 2>&1); rc=$?
   git -C $W checkout -q -- .
